@@ -89,3 +89,28 @@ Theorem C05_py_basic_list : forall (op : pv) (sa sam sar : Z) (data : list (stri
   encode_pv data T_basic (zeros 24) = Ok hdr ->
   call_fun all_tables py_program (S f) PROUT [op; PInt sa; PDict data] = Ok (PBytes hdr).
 Proof. exact prout_basic_exact. Qed.
+
+(* the iSCSI TransportID (TPID format 00b) the builder returns for EVERY ASCII name: ADDITIONAL LENGTH is len(name)+1 rounded up to a
+   multiple of four (the regenerated _pad4_len, run through its own body), the name starts at byte 4, the rest is NUL *)
+Theorem C05_py_iscsi_transport_id : forall (s : String.string) (name : bytes) f,
+  bytes_of_string s = Some name -> (2 <= f)%nat -> (Z.of_nat (length name) <= 1000000)%Z ->
+  call_fun all_tables py_program f MTI [PDict [("protocol_id", PInt 5); ("iscsi_name", PStr s)]] = Ok (PBytes (iscsi_tid0 name)).
+Proof. exact iscsi_transport_id_format0. Qed.
+
+(* read back as SPC lays it out: the length field equals the number of bytes that follow it, the whole is a multiple of four bytes,
+   the name is where the standard puts it and NUL-terminated *)
+Theorem C05_py_iscsi_transport_id_honest : forall name : bytes, (Z.of_nat (length name) <= 65000)%Z ->
+  let t := iscsi_tid0 name in
+  length t = (4 + pad4 (length name))%nat /\ (length t mod 4 = 0)%nat /\
+  ba_to_int (firstn 2 (skipn 2 t)) = N.of_nat (length t - 4) /\
+  firstn (length name) (skipn 4 t) = name /\ nth (4 + length name) t 1 = 0.
+Proof. exact iscsi_tid0_honest. Qed.
+
+(* ... and the whole REGISTER AND MOVE list with such a TransportID, in closed form *)
+Theorem C05_py_register_and_move_iscsi : forall (op : pv) (sa : Z) (data : list (String.string * pv)) (s : String.string) (name hdr : bytes) f,
+  opcode_has op "REGISTER_AND_MOVE" sa ->
+  lookup "transport_id" data = Some (PDict [("protocol_id", PInt 5); ("iscsi_name", PStr s)]) ->
+  bytes_of_string s = Some name -> (Z.of_nat (length name) <= 65000)%Z -> (2 <= f)%nat ->
+  encode_pv (dict_set data "transportid_length" (PInt (Z.of_nat (4 + pad4 (length name))))) T_ram (zeros 24) = Ok hdr ->
+  call_fun all_tables py_program (S f) PROUT [op; PInt sa; PDict data] = Ok (PBytes (hdr ++ iscsi_tid0 name)%list).
+Proof. exact prout_register_and_move_iscsi. Qed.
